@@ -283,6 +283,7 @@ func loadUniverse(o LoadOpts) (*Universe, error) {
 		})
 	}
 	u.LoadSecs = time.Since(t0).Seconds()
+	symU, symCallers = u, nil
 	return u, nil
 }
 
